@@ -66,7 +66,7 @@ impl SwiftField for Field37H {
             });
         }
 
-        if remaining.len() > 12 {
+        if super::swift_utils::amount_text_len(remaining) > 12 {
             return Err(ParseError::InvalidFormat {
                 message: format!(
                     "Field37H rate must not exceed 12 characters, found {}",
